@@ -73,15 +73,15 @@ Proof. exact commit_nothing_refused. Qed.
 (* ---------- Part 3: over histories ---------- *)
 (* "Conversely, any staged difference makes commit succeed": on every reachable
    repository (no flagged collision, no giant object) whose staging area differs
-   from the snapshot of the commit HEAD resolves to, with an identity and a
-   message in the domain of C12, `commit` returns success and installs exactly
+   from the snapshot of the commit HEAD resolves to, with an identity in the
+   domain of C12 and any message, `commit` returns success and installs exactly
    the commit of C02_commit_spec *)
 Theorem C07_commit_succeeds_on_any_staged_difference : forall w e msg c hid s,
   Reachable w -> w_coll w = false -> SmallStore (w_objs w) ->
   ctx_of w = Some c -> tip_of w = Some hid -> snapshot (w_objs w) hid = Some s ->
   s <> idx_of w ->
   user_set (x_l c) (x_g c) = true ->
-  sign_ok (user_name (x_l c) (x_g c)) (user_email (x_l c) (x_g c)) (e_time e) (e_off e) -> msg_ok msg ->
+  sign_ok (user_name (x_l c) (x_g c)) (user_email (x_l c) (x_g c)) (e_time e) (e_off e) ->
   exists root subs, write_tree_top (idx_of w) = Some (root, subs) /\
     step (ACmd e (CCommit msg)) w
     = (after_commit e c msg w root subs, OOk [], do_commit_trace e c msg w root subs).
@@ -92,7 +92,7 @@ Proof. exact history_commit_succeeds. Qed.
 Theorem C07_first_commit_succeeds : forall w e msg c,
   Reachable w -> ctx_of w = Some c -> w_refs w = [] -> idx_of w <> [] ->
   user_set (x_l c) (x_g c) = true ->
-  sign_ok (user_name (x_l c) (x_g c)) (user_email (x_l c) (x_g c)) (e_time e) (e_off e) -> msg_ok msg ->
+  sign_ok (user_name (x_l c) (x_g c)) (user_email (x_l c) (x_g c)) (e_time e) (e_off e) ->
   exists root subs, write_tree_top (idx_of w) = Some (root, subs) /\
     step (ACmd e (CCommit msg)) w
     = (after_commit e c msg w root subs, OOk [], do_commit_trace e c msg w root subs).
